@@ -253,6 +253,18 @@ pub fn run_interp(c: &Case, bufs: &Bufs, budget: u64, trace_cap: usize) -> Inter
             Ok(v) => v,
             Err(e) => return Ran::Rejected(e),
         };
+        // placement variants also register allowed ranges that lie INSIDE the packet or the metadata
+        // buffer (nested, and an empty one): the union of accessible memory is unchanged, so nothing
+        // about the run may change - a region that overlaps another must not hide it
+        if c.prog_shift != 0 {
+            for g in [&bufs.pkt, &bufs.mbuff].into_iter().flatten() {
+                if g.len() >= 24 {
+                    vm.register_allowed(g.addr() + 8..g.addr() + 16);
+                    vm.register_allowed(g.addr() + 12..g.addr() + 12);
+                    vm.register_allowed(g.addr() + g.len() as u64 - 5..g.addr() + g.len() as u64);
+                }
+            }
+        }
         // a third of the cases with helpers are first executed with DECOY helpers (the function under
         // each id shifted by one), then the right functions are registered: the execution that counts
         // must call what is registered now (fixed VM excluded: bytes a program stores in the internal
